@@ -1,6 +1,7 @@
 import TypstyleModel.Proofs.CarriesLists
 import TypstyleModel.Proofs.CarriesMarkup
 import TypstyleModel.Proofs.CarriesCall
+import TypstyleModel.Proofs.CarriesRaw
 /-! The knot (route M): **for every tree of the covered fragment, the printed family carries exactly
 what the tree prescribes** — code tokens, comments, prose, literals and verbatim text — with no
 per-case certificate: by induction over the fuel of the knot, using the per-construct theorems.
@@ -114,6 +115,7 @@ def listChildrenOK (k : Kind) (cs : List ANode) : Bool :=
           | [] => false)
       else cs.all isBlockShape
   | .params | .destructuring => cs.all fun x => isParam x || isPassable x
+  | .raw => cs.all rawChildOK
   | .funcCall =>
       -- callee and arguments; dot chains (callee a field access) and `table`/`grid` are laid out by other code
       (match cs with
@@ -125,10 +127,10 @@ def listChildrenOK (k : Kind) (cs : List ANode) : Bool :=
 mutual
 /-- The covered fragment (decidable). -/
 def inFrag : ANode → Bool
-  | .leaf k t a => ANode.tokensAreLeaves (.leaf k t a) && (!k.isExpr || k.isFragLeaf || (k == .parbreak && !a.disabled)) && !k.isInnerKind
+  | .leaf k t a => ANode.tokensAreLeaves (.leaf k t a) && (!k.isExpr || k.isFragLeaf || (k == .parbreak && !a.disabled) || k == .none_ || k == .auto_) && (!k.isInnerKind || (k == .markup && t == ""))
   | .inner k cs _ =>
     (k.isFragFlow || k.isFragElem || (k.isFragList && listChildrenOK k cs) || k == .code ||
-      ((k.isFragWrap || k == .markup || k == .args || k == .funcCall || k == .params || k == .destructuring) && listChildrenOK k cs) || k.isFragItem || k == .setRule || k == .closure || k == .forLoop) && inFragL cs
+      ((k.isFragWrap || k == .markup || k == .args || k == .funcCall || k == .params || k == .destructuring || k == .raw) && listChildrenOK k cs) || k.isFragItem || k == .setRule || k == .closure || k == .forLoop) && inFragL cs
 def inFragL : List ANode → Bool
   | [] => true
   | c :: cs => inFrag c && inFragL cs
@@ -136,7 +138,7 @@ end
 
 theorem fragKind_inner (k : Kind) (cs : List ANode)
     (h : (k.isFragFlow || k.isFragElem || (k.isFragList && listChildrenOK k cs) || k == .code ||
-      ((k.isFragWrap || k == .markup || k == .args || k == .funcCall || k == .params || k == .destructuring) && listChildrenOK k cs) || k.isFragItem || k == .setRule || k == .closure || k == .forLoop) = true) : k.isInnerKind = true := by
+      ((k.isFragWrap || k == .markup || k == .args || k == .funcCall || k == .params || k == .destructuring || k == .raw) && listChildrenOK k cs) || k.isFragItem || k == .setRule || k == .closure || k == .forLoop) = true) : k.isInnerKind = true := by
   cases k <;> simp_all [Kind.isFragFlow, Kind.isFragElem, Kind.isFragList, Kind.isFragWrap, Kind.isFragItem, Kind.isInnerKind]
 
 mutual
@@ -428,9 +430,48 @@ theorem paramList_frag (e : Env) (r : Rec) (hr : RecOK r Q) (ctx : Ctx) (k : Kin
       (fun ls => ls.alwaysFoldIf _) (fun ls => by unfold LS.alwaysFoldIf; split <;> rfl) _ sp2 sp0 sp1 cs hall
       (fun x hx => param_no_hash x (hall x hx).2)
 
+theorem specAll_empty_markup_leaf (a : Attrs) : specAll (.leaf .markup "" a) = {} := by
+  apply Streams.ext' <;> simp [specAll, specToks, specCmts, specProse, specLit, specVerb, isCommentKind, Kind.isExpr, leafTag,
+    Pretty.keepOf]
+
+theorem frag_markup_leaf_text (t : String) (a : Attrs) (hq : inFrag (.leaf .markup t a) = true) : t = "" := by
+  have := hq
+  simp [inFrag, Kind.isInnerKind, Kind.isExpr] at this
+  exact this.2
+
 theorem specAll_underscore_leaf (t : String) (a : Attrs) : specAll (.leaf .underscore t a) = tagS .tok t := by
   apply Streams.ext' <;> simp [specAll, specToks, specCmts, specProse, specLit, specVerb, isCommentKind, tagS, Pretty.charsOf,
     Pretty.keepOf, leafTag, Kind.isExpr]
+
+/-- The keyword literals `none` and `auto`: printed as the constant (the model checks the leaf's text), or
+copied verbatim when marked. -/
+theorem keyword_literal_leaf (e : Env) (r : Rec) (ctx : Ctx) (k : Kind) (s t : String) (a : Attrs)
+    (hk : k = .none_ ∨ k = .auto_) (hs : convExprImpl e r ctx (.leaf k t a) = e.synNode (.leaf k t a) s) :
+    Post (if (ANode.leaf k t a).attrs.disabled = true then pure (e.verbNode (.leaf k t a)) else convExprImpl e r ctx (.leaf k t a))
+      (fun d => Carries d (specAll (.leaf k t a))) := by
+  split
+  · rename_i hd
+    have hd' : a.disabled = true := by simpa [ANode.attrs] using hd
+    refine Post.pure ?_
+    have hv : e.verbNode (.leaf k t a) = e.verb t := by rcases hk with rfl | rfl <;> rfl
+    rw [hv]
+    refine (Carries.mkText e.wd .verbatim t).congr ?_
+    rcases hk with rfl | rfl <;>
+      (apply Streams.ext' <;> simp [specAll, specToks, specCmts, specProse, specLit, specVerb, isCommentKind, tagS, Pretty.charsOf,
+        Pretty.keepOf, leafTag, Kind.isExpr, hd'])
+  · rename_i hd
+    have hd' : a.disabled = false := by simpa [ANode.attrs] using hd
+    rw [hs]
+    unfold Env.synNode
+    split
+    · rename_i ht
+      have ht' : t = s := by simpa [ANode.intoText] using ht
+      subst ht'
+      refine Post.pure ((Carries.mkText e.wd .syn t).congr ?_)
+      rcases hk with rfl | rfl <;>
+        (apply Streams.ext' <;> simp [specAll, specToks, specCmts, specProse, specLit, specVerb, isCommentKind, tagS, Pretty.charsOf,
+          Pretty.keepOf, leafTag, Kind.isExpr, hd'])
+    · exact Post.rejected _
 
 /-- An expression leaf of the fragment at the expression entry point (marked or not). -/
 theorem leaf_expr_frag (e : Env) (r : Rec) (ctx : Ctx) (k : Kind) (t : String) (a : Attrs) (hx : k.isExpr = true)
@@ -438,7 +479,7 @@ theorem leaf_expr_frag (e : Env) (r : Rec) (ctx : Ctx) (k : Kind) (t : String) (
     Post (if (ANode.leaf k t a).attrs.disabled = true then pure (e.verbNode (.leaf k t a)) else convExprImpl e r ctx (.leaf k t a))
       (fun d => Carries d (specAll (.leaf k t a))) := by
   simp only [inFrag, Bool.and_eq_true, Bool.or_eq_true, Bool.not_eq_true', beq_iff_eq] at hq
-  rcases hq.1.2 with (h | h) | h
+  rcases hq.1.2 with (((h | h) | h) | h) | h
   · rw [hx] at h; cases h
   · rw [specAll_frag_leaf k t a h, verbNode_frag_leaf e k t a h, convExprImpl_frag_leaf e r ctx k t a h]
     split <;> exact Post.pure (Carries.mkText e.wd _ t)
@@ -447,6 +488,8 @@ theorem leaf_expr_frag (e : Env) (r : Rec) (ctx : Ctx) (k : Kind) (t : String) (
     simp only [ANode.attrs, hd, Bool.false_eq_true, ↓reduceIte]
     rw [specAll_parbreak_leaf]
     exact Post.pure (Carries.repeatN Carries.hardline _)
+  · subst h; exact keyword_literal_leaf e r ctx .none_ "none" t a (Or.inl rfl) rfl
+  · subst h; exact keyword_literal_leaf e r ctx .auto_ "auto" t a (Or.inr rfl) rfl
 
 set_option maxHeartbeats 1600000 in
 /-- One level of the knot: the expression entry point. -/
@@ -556,12 +599,22 @@ theorem convExpr_frag (e : Env) (r : Rec) (hr : RecOK r Q) (ctx : Ctx) (hctx : N
              (fun c hc => ⟨⟨tokensAreLeavesL_mem hlex hc, hqc c hc⟩, fun hk he => by
                have hcq : inFrag c = true := hqc c hc
                cases c with
-               | leaf k' t' a' => simp only [ANode.kind] at hk; subst hk; simp [inFrag, Kind.isInnerKind] at hcq
+               | leaf k' t' a' =>
+                 simp only [ANode.kind] at hk; subst hk
+                 rw [frag_markup_leaf_text t' a' hcq]; exact specAll_empty_markup_leaf a'
                | inner k' cs' a' =>
                  simp only [ANode.kind] at hk; subst hk
                  have : cs' = [] := by simpa [ANode.children] using he
                  subst this
                  rw [specAll_inner .markup [] a' (by simp [isVerbatimNode, Kind.isExpr]) (by decide)]; rfl⟩) false)
+      by_cases hrawk : k = .raw
+      · subst hrawk
+        have hch : listChildrenOK .raw cs = true := by
+          have h1 := hq.1
+          simp [Kind.isFragFlow, Kind.isFragElem, Kind.isFragList, Kind.isFragWrap, Kind.isFragItem] at h1
+          exact h1
+        show Post (pure (convRaw e _)) _
+        exact Post.pure (convRaw_carries e cs a hd' (by simpa [listChildrenOK] using hch))
       by_cases hclok : k = .closure
       · subst hclok
         show Post (convClosure e r ctx _) _
@@ -991,8 +1044,17 @@ theorem convMarkup_frag (e : Env) (r : Rec) (hr : RecOK r Q) (ctx : Ctx) (hctx :
     (hq : inFrag n = true) : Post (convMarkup e r ctx n scope) (fun d => Carries d (specAll n)) := by
   cases n with
   | leaf k t a =>
+    -- an empty `Markup` (a leaf): nothing is printed, nothing is prescribed
     simp only [ANode.kind] at hk; subst hk
-    simp [inFrag, Kind.isInnerKind] at hq
+    have ht : t = "" := frag_markup_leaf_text t a hq
+    subst ht
+    rw [specAll_empty_markup_leaf]
+    unfold convMarkup
+    refine Post.bind (Q := fun _ => True) (fun _ _ _ _ => trivial) (fun _ _ => ?_)
+    have hrepr : collectMarkupRepr [] = ⟨[], .nil, .nil⟩ := by rfl
+    simp only [ANode.children, isOnlyOneAnd, Bool.false_eq_true, ↓reduceIte, hrepr, List.foldlM_nil, M.pure_bind]
+    refine Post.pure ?_
+    simpa using Carries.nil.enclose (getDelim_carries _ _ _ _ _) (getDelim_carries _ _ _ _ _)
   | inner k cs a =>
     simp only [ANode.kind] at hk; subst hk
     simp only [inFrag, Bool.and_eq_true] at hq
